@@ -8,7 +8,7 @@ from ..cfg import always_raises
 from ..model import AnalysisError, FuncInfo, Program, body_walk, calls_in_body, dotted, norm, parent
 from ..poly import Poly, PolyEnv
 from ..props import transparent_casts
-from ..report import Result
+from ..report import Result, depends
 from ..stream import cwrite_calls, dict_literal_keys, prep_calls, writer_handles
 from ..streamops import KMOD, StreamOp
 
@@ -25,7 +25,8 @@ EXPLANATION = (
     "decimation gulp is a whole multiple of the time factor and a non-dividing frequency factor is rejected before any "
     "output exists; (R5) what is written in an iteration is exactly the block just computed (right slice length, right "
     "column/band selection for each output file); (R6) the writer converts to the declared sample width (shared with "
-    "C04). Not decided: sample values and the zero-DM quantisation tolerance."
+    "C04); (R7) what the transforms consume is right: the read plan (C01's rules re-evaluated) and, for remove_zerodm, the "
+    "bandpass reduction and its kernel (C06's rules for bandpass re-evaluated). Not decided: sample values and the zero-DM quantisation tolerance."
 )
 BASE = "sigpyproc.base"
 
@@ -293,6 +294,11 @@ def run(prog: Program, res: Result, tier: str) -> None:
 
     res.assumptions += ["read_plan delivers the selected range once in blocks of at most gulp samples (C01)",
                         "nsub divides nchans and ffactor divides nchans (the property's own quantifier)"]
+    # ---- R7 what the transforms consume: the read plan (C01) and, for remove_zerodm, the bandpass reduction (C06) ---
+    depends(res, "R7", prog, tier, "C01", why="the blocks these loops consume come from read_plan: the plan rules of C01 (and, through them, the multi-file stream rules of C02) are re-evaluated here")
+    depends(res, "R7", prog, tier, "C06", accept=lambda o: "bandpass" in (o.key or "") or "extract_bpass" in (o.key or "") or "bandpass" in (o.where or ""),
+            why="remove_zerodm weights the channels by the bandpass: C06's rules for the bandpass reduction and its kernel are re-evaluated here")
+    res.floor("R7", 42)
     res.floor("R1", 5)
     res.floor("R2", 19)
     res.floor("R3", 1)
